@@ -70,7 +70,7 @@ Section C12.
     intros v p now s m tid o Hro Hp. destruct m; cbn in Hro; try discriminate; cbn in Hp |- *.
     - (* Dry *)
       destruct (nth_error p tid) as [t|]; [|reflexivity].
-      unfold run_task. cbn [orb].
+      unfold run_task. cbn [deps_fs]. rewrite with_fs_id. unfold run_task_core. cbn [orb].
       pose proof (uptodate_quiet v now s t) as E.
       destruct (uptodate v true now s t) as [up s1]. cbn in E. subst s1.
       destruct up; [reflexivity|].
